@@ -1627,13 +1627,16 @@ def check_C10(tier):
     cov = {"evaluations": len(cases), "distinct_nontrivial": nspec,
            "rule": "random abstract file specifications (prologue, %union body, tagged/numbered tokens, literal tokens, %type, precedence lines, %start, rules with %prec and action bodies containing braces/comments, epilogue) x textual renderings: a minimal one and random ones (gaps drawn from blanks, tabs, newlines, // and /* */ comments incl. /**/ and /* x **/, optional ';'); the implementation's result (rules in order, symbols, start, numbers, tags, precedence, verbatim sections) is compared with what the specification says, and all stages with the Lean front-end model; distinct = specifications",
            "samples": samples, "layouts_per_spec": nlay + 1, "specs_refused_as_unusable": refused_specs, "trusted_base": TRUSTED,
-           "partial": ["layout-independence of the token stream and the parser/visitor round trip are established by correspondence and by the expected-result comparison; the kernel-checked part is the totality of the lexer model (lexAll_total)"]}
+           "partial": ["kernel-checked on the lexer model: inserting any gap (blanks, tabs, newlines, //-comments, /* */-comments) at a token boundary leaves kinds and values of all tokens unchanged (C10_lex_layout, C10_layout_chunks), the three opaque bodies are carried verbatim; the parser/visitor half of the round trip is established by the stage-by-stage correspondence and the expected-result comparison",
+                       "C10_directive_chain_caveat (kernel-checked): directly after a %-directive word the lexer keeps scanning for another directive word, so `%token left` depends on layout; identifiers that are directive words are outside the domain (DESIGN §4)"]}
     return common.conclude(pid, tier, C10_LEVEL, proof, ties[:50], violations, cov,
                            ["layouts stay inside the domain of DESIGN §4: `%union` and its `{` are separated by blanks only; identifiers are not directive words"])
 
 
-C10_THEOREMS = ["YLex.lexAll_total"]
-C10_MODULES = ["Yv.Proofs.YLexTotal"]
+C10_THEOREMS = ["YLex.lexAll_total", "Y.Props.C10_lex_layout", "Y.Props.C10_skip_gap", "Y.Props.C10_offset_independent",
+                "Y.Props.C10_boundary_gap", "Y.Props.C10_layout_chunks", "Y.Props.C10_action_verbatim",
+                "Y.Props.C10_prologue_verbatim", "Y.Props.C10_union_verbatim"]
+C10_MODULES = ["Yv.Proofs.YLexTotal", "Yv.Props.C10"]
 C10_LEVEL = "proof"
 
 
@@ -2346,6 +2349,8 @@ def check_C19(tier):
     return common.conclude(pid, tier, C19_LEVEL, proof, [], violations, cov, ["the output path is writable; failures of the OS itself are out of scope"])
 
 
-C19_THEOREMS = []
-C19_MODULES = []
-C19_LEVEL = "fault_enumeration"
+C19_THEOREMS = ["C19.C19_atomic_on_failure", "C19.C19_success_content", "C19.C19_go", "C19.C19_ts",
+                "C19.go_create_after_fallible", "C19.ts_create_after_fallible", "C19.last_write_is_epilogue",
+                "C19.go_templates_end_with_epilogue"]
+C19_MODULES = ["Yv.Props.C19"]
+C19_LEVEL = "proof"
